@@ -669,6 +669,68 @@ def run_reactor_model(shard):
     return acc
 
 
+AROM_MOLS = ['BrCc1c[nH]cn1', 'BrCc1cc[nH]n1', 'BrCCc1nc2ccccc2[nH]1', 'BrCc1c[nH]c2ccccc12', 'BrCc1ccc[nH]1', 'BrCc1ncc[nH]1', 'BrCc1cn[nH]c1', 'BrCc1nc2[nH]cnc2c(N)n1', 'BrCc1ccccc1', 'BrCc1ccncc1',
+             'BrCc1cc(C)[nH]n1', 'OCc1c[nH]cn1', 'OCc1cc[nH]n1', 'BrCc1c[nH]c(=O)[nH]1']
+AROM_TEMPLATES = [('[C:1]Br', '[A:1][O;M]', 'side chain: new atom'), ('[C:1]Br', '[A:1]', 'side chain: delete'), ('[C:1][O;D1:2]', '[A:1][S:2]', 'side chain: element change'),
+                  ('[C:1][Br:2]', '[A:1][A:2]', 'side chain: identity')]
+
+
+def run_aromatic_frame(shard):
+    """frame condition on aromatic molecules as parsed (not kekulised): atoms the template does not name keep element, charge, radical state AND hydrogen count;
+    ring bonds keep their orders; with and without the aromatic-ring post-processing"""
+    from chython import smiles, smarts, Transformer
+    acc = Acc()
+    for pat, rep, desc in AROM_TEMPLATES:
+        pattern, repl = smarts(pat), smarts(rep)
+        for fix in (True, False):
+            tr = Transformer(pattern, repl, automorphism_filter=False, fix_aromatic_rings=fix)
+            for s in AROM_MOLS:
+                m = smiles(s)
+                m.kekule()
+                m.thiele()      # aromatic form with every hydrogen count defined (an aromatic n as parsed has none)
+                nums = list(m)
+                for variant in ('as parsed', 'reversed numbers'):
+                    mm = m.copy()
+                    if variant != 'as parsed':
+                        mm.remap({n: n + 100 for n in nums})
+                        mm.remap({n + 100: x for n, x in zip(nums, nums[::-1])})
+                    acc.states += 1
+                    tag = '%s | %s >> %s | %s | %s | fix_aromatic_rings=%s' % (desc, pat, rep, s, variant, fix)
+                    try:
+                        matches = [dict(x) for x in pattern.get_mapping(mm, automorphism_filter=False, _cython=False)]
+                        prods = list(tr(mm))
+                    except Exception as e:
+                        acc.fail('template application raised %s :: %s' % (type(e).__name__, desc), case=tag)
+                        continue
+                    acc.transitions += 1 + len(prods)
+                    if len(prods) != len(matches):
+                        acc.fail('number of products differs from the number of matches :: %s' % desc, case=tag, got=len(prods), expected=len(matches))
+                        continue
+                    for mapping, p in zip(matches, prods):
+                        named = set(mapping.values())
+                        for n, a in mm.atoms():
+                            if n in named or n not in p._atoms:
+                                continue
+                            b = p.atom(n)
+                            if (a.atomic_symbol, a.charge, a.is_radical, a.implicit_hydrogens) != (b.atomic_symbol, b.charge, b.is_radical, b.implicit_hydrogens):
+                                acc.fail('an atom the template does not name changed its attributes or hydrogen count :: %s' % desc, case=tag, atom=n,
+                                         got=[b.atomic_symbol, b.charge, b.is_radical, b.implicit_hydrogens], expected=[a.atomic_symbol, a.charge, a.is_radical, a.implicit_hydrogens])
+                                break
+                        else:
+                            for x, y, bd in mm.bonds():
+                                if x in named or y in named or x not in p._atoms or y not in p._atoms:
+                                    continue
+                                if not p.has_bond(x, y) or p.bond(x, y).order != bd.order:
+                                    acc.fail('a bond between atoms the template does not name changed :: %s' % desc, case=tag, bond=[x, y])
+                                    break
+                            else:
+                                if not mm.check_valence() and p.check_valence():
+                                    acc.fail('product with a valence error :: %s' % desc, case=tag, got=format(p, 'h'))
+                    acc.outcomes[(desc, fix, len(matches) > 0)] += 1
+    acc.sample({'molecules': AROM_MOLS[:5], 'templates': [t[2] for t in AROM_TEMPLATES]})
+    return acc
+
+
 FWD_NAMES = ['amidation', 'amine_isocyanate', 'buchwald_hartwig', 'esterification', 'macmillan', 'reductive_amination', 'songashira', 'sulfonamidation', 'suzuki_miyaura']
 RETRO_NAMES = ['amidation', 'aryl_amination', 'mitsunobu', 'sonogashira', 'suzuki_miyaura']
 
@@ -677,6 +739,7 @@ def plan(tier, seed):
     return [Stage('synthetic Transformer templates vs edit model', run_transformer, [(k, 21, tier) for k in range(21)], '%d templates (one per patcher branch) x %d molecules x 3 numberings x every match' % (len(TEMPLATES), len(MOLS))),
             Stage('multi-reactant Reactor', run_reactor, [(k, 4, tier) for k in range(4)], '4 reactions x 6 reactant pairs x spectators x all reactant orders x renumbering x one_shot on/off; colliding atom numbers'),
             Stage('built-in deprotection templates', run_builtin, [(k, 16, tier) for k in range(16)], 'every deprotection group + apply_all x protected molecules x 2 numberings: unique numbers, valence validity, numbering independence'),
+            Stage('frame condition on aromatic molecules', run_aromatic_frame, [0], '4 side-chain templates x 14 aromatic N-H heterocycles in aromatic form x 2 numberings x aromatic post-processing on/off: unnamed atoms keep hydrogens, ring bonds keep orders'),
             Stage('synthetic multi-reactant Reactor vs edit model', run_reactor_model, [0], '4 reactions x 12 ordered reactant pairs x spectator x automorphism filter: set of reactions = edit model over every combination of matches'),
             Stage('prepared reaction collections vs edit model', run_prepared, [('fwd', n, tier) for n in FWD_NAMES] + [('retro', n, tier) for n in RETRO_NAMES],
                   '9 forward + 5 retro collections (53 reactors) x every tuple of pool molecules matching the patterns: reactions = edit model over every combination of matches; '
@@ -691,6 +754,8 @@ def replay(rec):
         kind = 'fwd' if d.startswith('reactions') else 'retro'
         name = d.split('.')[1].split('[')[0]
         accs = [run_prepared((kind, name, 'thorough'))]
+    elif 'fix_aromatic_rings=' in case:
+        accs = [run_aromatic_frame(0)]
     elif 'synthetic ' in key:
         accs = [run_reactor_model(0)]
     elif case.startswith('deprotection'):
